@@ -17,7 +17,7 @@ TRUSTED = [
     'A3 inlineCallbacks / Deferred semantics; queue_command contract (C01): the command text is written verbatim as one line',
     'find_keywords on the ADD_ONION reply yields ServiceID / PrivateKey as given (uninterpreted); _await_descriptor_upload contract (C15)',
     'port mappings reach _add_ephemeral_service as "virt target" strings (_validate_ports, bounded twin)',
-    'the BasicAuth / ClientAuth path is NOT under contract here: bounded twin (full option product, independent ADD_ONION parser)',
+    'the BasicAuth / ClientAuth path is under contract for an AuthBasic of two clients (each with or without a supplied cookie), version 2, one port; other shapes: bounded twin (full option product, independent ADD_ONION parser)',
     'pyvc semantics; z3/cvc5',
 ]
 LEVEL = 'proof'
@@ -28,8 +28,10 @@ MANIFEST = {
             'or a version-3 request with a non-V3 key, raises ValueError with no command sent; otherwise exactly one command is sent and it is ADD_ONION + key specifier '
             '(NEW:BEST / NEW:ED25519-V3 for none or DISCARD; a supplied key verbatim when it has a type prefix, else with RSA1024: / ED25519-V3: prepended) + one Port=virt,target '
             'per mapping in order + Flags= exactly {Detach, DiscardPK, NonAnonymous} as requested; after the reply the hostname is ServiceID + ".onion", a generated key is kept, '
-            'a supplied key is unchanged, and with DISCARD no key is stored at any exit; remove() sends DEL_ONION for exactly that service id.',
-    'level_note': 'Bounded (B): BasicAuth / ClientAuth entries, _validate_ports port forms, Tor.create_onion_service plumbing - twin (1536 option cells x port shapes, thorough: full product). '
+            'a supplied key is unchanged, and with DISCARD no key is stored at any exit; remove() sends DEL_ONION for exactly that service id. '
+            'With an AuthBasic of two clients the command ends in Flags=BasicAuth followed by one ClientAuth=name[:cookie] per client in order, the AuthBasic object is left unmodified, '
+            'supplied cookies are recorded before the command and generated ones are taken from the ClientAuth= lines of the reply.',
+    'level_note': 'Bounded (B): other client counts / AuthStealth, _validate_ports port forms, Tor.create_onion_service plumbing - twin (1536 option cells x port shapes, thorough: full product). '
                   'Assumed (A): reply keyword extraction, descriptor-wait contract.',
 }
 
@@ -198,6 +200,114 @@ def unit_add(version, keykind, nports):
     return run
 
 
+class AuthModels14(Models14):
+    """BasicAuth path: the reply is two lines, _add_client is logged"""
+    def contract_for(self, ex, path, f, args, kw):
+        if f.qualname.endswith('._add_client'):
+            self.glog_add(path, 'add_client', (tuple(args), len(self.glog(path, 'queued'))))
+            return [(path, NONE)]
+        return Models14.contract_for(self, ex, path, f, args, kw)
+
+    def split_hook(self, ex, path, s, args, kw):
+        if len(args) == 1 and concrete_of(args[0]) == (True, '\n'):
+            return [(path, ex.new_list(path, [VStr(z3.String('reply_line0')), VStr(z3.String('reply_line1'))]))]
+        return Models14.split_hook(self, ex, path, s, args, kw)
+
+
+def unit_add_auth():
+    """_add_ephemeral_service with an AuthBasic of two clients (each with or without a supplied cookie)"""
+    def run(ctx):
+        ctx.fn(MODULE, '_add_ephemeral_service')
+        ctx.fn(MODULE, '_AuthCommon.client_names')
+        ctx.fn(MODULE, '_AuthCommon.keyblob_for')
+        import txtorcon.onion as onion
+        ex = ctx.ex
+        path = ctx.new_path()
+        H = path.heap
+        svc = ex.new_inst(path, onion.EphemeralAuthenticatedOnionService)
+        o = svc.oid
+        H[('f', o, '_private_key')] = NONE
+        port = z3.String('port0')
+        path.assume(z3.Contains(port, mk_str(' ')))
+        H[('f', o, '_ports')] = ex.new_list(path, [VStr(port)])
+        H[('f', o, '_detach')] = VBool(False)
+        H[('f', o, '_single_hop')] = VBool(False)
+        H[('f', o, '_hostname')] = NONE
+        H[('g', 'eph_list')] = ex.new_list(path, [])
+        auth = ex.new_inst(path, onion.AuthBasic)
+        names = [z3.String('client%d' % i) for i in range(2)]
+        blobs = [z3.String('cookie%d' % i) for i in range(2)]
+        has = [z3.Bool('client%d_has_cookie' % i) for i in range(2)]
+        path.assume(names[0] != names[1])
+        pre_pairs = []
+        for i in range(2):
+            ctx.input('client%d' % i, VStr(names[i]))
+            ctx.input('cookie%d' % i, VStr(blobs[i]))
+            ctx.input('client%d_has_cookie' % i, VBool(has[i]))
+            pre_pairs.append((VStr(names[i]), VUnion([(has[i], VStr(blobs[i])), (z3.Not(has[i]), NONE)])))
+        clients = ex.new_dict(path, pre_pairs)
+        H[('f', auth.oid, '_clients')] = clients
+        ctx.cover('pre_satisfiable', path)
+        mi, node = extract.find(MODULE, '_add_ephemeral_service')
+        f = VFunc(node, MODULE, '_add_ephemeral_service')
+        outs = ex.call(path, f, [VOpaque('config', 4000), svc, NONE, VInt(2), auth, NONE], {})
+        sp = z3.IndexOf(port, mk_str(' '), 0)
+        cmd_spec = z3.Concat(mk_str('ADD_ONION NEW:BEST Port='), z3.SubString(port, 0, sp), mk_str(','), z3.SubString(port, sp + 1, z3.Length(port)))
+        cmd_spec = z3.Concat(cmd_spec, mk_str(' Flags=BasicAuth'))
+        for i in range(2):
+            cmd_spec = z3.Concat(cmd_spec, mk_str(' ClientAuth='), names[i], z3.If(has[i], z3.Concat(mk_str(':'), blobs[i]), mk_str('')))
+        n_ok = 0
+        for p, r in outs:
+            queued = ctx.models.glog(p, 'queued')
+            ctx.oblige('post.at_most_one_add_onion', p, B(len(queued) <= 1), clause='exactly one ADD_ONION')
+            now = p.heap[('dict', p.heap[('f', auth.oid, '_clients')].did)]
+            same = len(now) == 2 and all(now[i][0] is pre_pairs[i][0] and now[i][1] is pre_pairs[i][1] for i in range(2))
+            ctx.oblige('post.the_request_object_is_not_modified', p, B(same),
+                       clause='client-authentication entries correspond exactly to the request (also for the next service created from the same AuthBasic)')
+            if queued:
+                cmd = queued[0]
+                ctx.oblige('post.add_onion_carries_exactly_the_requested_clients', p, cmd.t == cmd_spec if isinstance(cmd, VStr) else B(False),
+                           clause='flags and client-authentication entries correspond exactly to the requested options')
+            if isinstance(r, Raise):
+                continue
+            n_ok += 1
+            added = ctx.models.glog(p, 'add_client')
+            before = [a for a in added if a[1] == 0]
+            after = [a for a in added if a[1] == 1]
+            # supplied cookies are known to the service before the command; generated ones come from the reply lines
+            exp_before = sum([z3.If(h, 1, 0) for h in has])
+            ctx.oblige('post.supplied_cookies_recorded', p, z3.IntVal(len(before)) == exp_before)
+            ok_after = all(len(a[0]) == 2 and isinstance(a[0][0], VStr) and isinstance(a[0][1], VStr) for a in after)
+            RL = [z3.String('reply_line0'), z3.String('reply_line1')]
+            match = [z3.PrefixOf(mk_str('ClientAuth='), l) for l in RL]
+
+            def parts(l):
+                rest = z3.SubString(l, 11, z3.Length(l))
+                idx = z3.IndexOf(rest, mk_str(':'), 0)
+                return z3.SubString(rest, 0, idx), z3.SubString(rest, idx + 1, z3.Length(rest))
+
+            def is_from(a, l):
+                nm, bl = parts(l)
+                return z3.And(a[0][0].t == nm, a[0][1].t == bl)
+            if not ok_after or len(after) > 2:
+                g = B(False)
+            elif len(after) == 0:
+                g = z3.Not(z3.Or(*match))
+            elif len(after) == 1:
+                g = z3.Or(z3.And(match[0], z3.Not(match[1]), is_from(after[0], RL[0])), z3.And(z3.Not(match[0]), match[1], is_from(after[0], RL[1])))
+            else:
+                g = z3.And(match[0], match[1], is_from(after[0], RL[0]), is_from(after[1], RL[1]))
+            ctx.oblige('post.generated_cookies_taken_from_the_reply_lines', p, g,
+                       clause='client-authentication credentials Tor generated are taken from its reply')
+        if not n_ok:
+            ctx.oblige('some_normal_exit', path, B(False))
+    return run
+
+
+def make_models_for(unit_name):
+    return AuthModels14() if '/auth' in unit_name else Models14()
+
+
 def unit_remove():
     def run(ctx):
         ctx.fn(MODULE, 'EphemeralOnionService.remove')
@@ -227,6 +337,7 @@ def units():
         for keykind in ('none', 'discard', 'supplied'):
             for nports in (1, 2):
                 out.append(('C14/add/v%d/%s/%dports' % (version, keykind, nports), unit_add(version, keykind, nports)))
+    out.append(('C14/add/auth_basic', unit_add_auth()))
     out.append(('C14/remove', unit_remove()))
     return out
 
